@@ -62,10 +62,18 @@ func main() {
 		var res []ast.Stmt
 		locked := 0
 		for _, s := range list {
+			isUnlock := false
 			if isLockCall(s, "Unlock", "RUnlock") {
-				if _, isDefer := s.(*ast.DeferStmt); !isDefer && locked > 0 {
+				if _, isDefer := s.(*ast.DeferStmt); !isDefer {
+					isUnlock = true // never put a yield point in front of the Unlock itself: the lock is still held
+				}
+			}
+			if isUnlock {
+				res = append(res, s)
+				if locked > 0 {
 					locked--
 				}
+				continue
 			}
 			if locked == 0 {
 				if ls, ok := s.(*ast.LabeledStmt); ok {
